@@ -660,6 +660,7 @@ pub fn gen_c01(rng: &mut Rng, tier: &str, out: &mut Out) {
 
 pub fn gen_c02(rng: &mut Rng, tier: &str, out: &mut Out) {
     let th = thorough(tier);
+    concat_coincidence_ops(out);
     let n = if th { 4800 } else { 280 };
     for i in 0..n {
         let mut cfg = if i % 10 == 6 { big_class_cfg() } else { Cfg::domain() };
@@ -754,9 +755,45 @@ pub fn gen_c02(rng: &mut Rng, tier: &str, out: &mut Out) {
     }
 }
 
+/// Entries of one class whose (obfuscated name, parameters, original name) differ but whose
+/// *concatenations* coincide ("int" ++ "foo" = "" ++ "intfoo", …): a key built by unframed
+/// concatenation or unframed hashing conflates them.
+pub fn concat_coincidence_ops(out: &mut Out) {
+    // (obf1, args1, orig1, obf2, args2, orig2)
+    const CASES: &[(&str, &str, &str, &str, &str, &str)] = &[
+        ("b", "int", "foo", "b", "", "intfoo"),
+        ("b", "int,long", "bar", "b", "", "int,longbar"),
+        ("b", "int", "longs", "b", "int,long", "s"),
+        ("b", "a", "bc", "b", "ab", "c"),
+        ("b", "c", "run", "bc", "", "run"),
+        ("bc", "d", "run", "b", "cd", "run"),
+        ("b", "", "crun", "bc", "", "run"),
+        ("b", "z", "z", "bz", "", "z"),
+    ];
+    for (o1, a1, n1, o2, a2, n2) in CASES {
+        for swap in [false, true] {
+            for ranged in [false, true] {
+                let l1 = if ranged { format!("    1:2:void {}({}):5:6 -> {}\n", n1, a1, o1) } else { format!("    void {}({}) -> {}\n", n1, a1, o1) };
+                let l2 = if ranged { format!("    3:4:void {}({}):7:8 -> {}\n", n2, a2, o2) } else { format!("    void {}({}) -> {}\n", n2, a2, o2) };
+                let t = if swap { format!("o.A -> a:\n{}{}", l2, l1) } else { format!("o.A -> a:\n{}{}", l1, l2) };
+                map_op(out, true, t.as_bytes());
+                for (o, a) in [(o1, a1), (o2, a2), (o1, a2), (o2, a1)] {
+                    out.d(format!("FRP {} {} {}", hxs("a"), hxs(o), hxs(a)));
+                }
+                out.d(format!("MTH {} {}", hxs("a"), hxs(o1)));
+                out.d(format!("MTH {} {}", hxs("a"), hxs(o2)));
+                out.d(format!("FRL {} {} 1 -", hxs("a"), hxs(o1)));
+                out.d(format!("FRL {} {} 3 -", hxs("a"), hxs(o2)));
+                out.count("concatenation_coincidences");
+            }
+        }
+    }
+}
+
 pub fn gen_c03(rng: &mut Rng, tier: &str, out: &mut Out) {
     let th = thorough(tier);
     congruent_range_ops(out);
+    concat_coincidence_ops(out);
     let n = if th { 10000 } else { 640 };
     for _ in 0..n {
         let mut cfg = Cfg::domain();
